@@ -4,6 +4,7 @@ package frr
 
 import (
 	"errors"
+	"os"
 	"reflect"
 
 	"github.com/go-kit/log"
@@ -74,4 +75,80 @@ func VerifDebouncer(steps int) {
 	}
 	vr.Assert(latest == nil || (lastOK != nil && reflect.DeepEqual(lastOK, latest)), "after failures stopped the last applied configuration is not the most recently submitted one")
 	vr.Reach("debouncer settled")
+}
+
+func init() {
+	verifHarnesses["VerifDebouncerReload"] = func(a []int) { VerifDebouncerReload(a[0]) }
+}
+
+// VerifDebouncerReload (C19): as VerifDebouncer, but the body is the production one
+// (generateAndReloadConfigFile: real templates, file write, reload request). The environment owns the
+// file system (the configuration file's directory may be missing for a while) and the reloader (the
+// package variable reloadConfig), which reads the file back, checks that it is the rendering of the most
+// recently submitted configuration and fails on symbolic attempts.
+func VerifDebouncerReload(steps int) {
+	dir := vhTempDir()
+	good, bad := dir+"/frr.conf", dir+"/verif-missing-dir/frr.conf"
+	configFileName = good
+	reload := make(chan reloadEvent)
+	var latest *frrConfig
+	appliedLatest := false
+	failing := true
+	reloadConfig = func() error {
+		data, err := os.ReadFile(good)
+		vr.Assert(err == nil, "reload requested although the configuration file was not written")
+		want, err2 := templateConfig(latest)
+		vr.Assert(err2 == nil && latest != nil && string(data) == want, "the file handed to the reloader is not the rendering of the most recently submitted configuration")
+		if failing && vr.Bool() {
+			return vhErrReload
+		}
+		appliedLatest = true
+		return nil
+	}
+	body := func(c *frrConfig) error { return generateAndReloadConfigFile(c, log.NewNopLogger()) }
+	debouncer(body, reload, vr.TimerDuration, vr.TimerDuration, log.NewNopLogger())
+	for i := 0; i < steps; i++ {
+		switch vr.Choose(3) {
+		case 0:
+			c := vhCfgMenu(vr.Choose(2))
+			if latest == nil || !reflect.DeepEqual(c, latest) {
+				appliedLatest = false
+			}
+			latest = c
+			reload <- reloadEvent{config: c}
+			vr.Yield()
+		case 1: // the pending timer expires; the directory may be missing at that moment
+			vr.Assume(vr.TimerPending())
+			if failing && vr.Bool() {
+				configFileName = bad
+			}
+			vr.FireTimer()
+			vr.Yield()
+			configFileName = good
+		case 2:
+			reload <- reloadEvent{useOld: true}
+			vr.Yield()
+		}
+		if vr.Symbolic() && !vr.TimerPending() {
+			vr.Assert(latest == nil || appliedLatest, "idle although the most recently submitted configuration was not applied (a failed write or reload was not retried)")
+		}
+	}
+	failing = false
+	for k := 0; k < 3; k++ {
+		vr.FireTimer()
+		vr.Yield()
+	}
+	vr.Assert(latest == nil || appliedLatest, "after failures stopped the most recently submitted configuration is still not applied")
+	vr.Reach("reload path settled")
+}
+
+func vhTempDir() string {
+	if vr.Symbolic() {
+		return "/verif-tmp"
+	}
+	d, err := os.MkdirTemp("", "verif-frr")
+	if err != nil {
+		panic(err)
+	}
+	return d
 }
